@@ -2659,8 +2659,9 @@ class RedunBackendDb(RedunBackend):
         child_handle.__handle__.is_recorded = True
 
         for parent_handle in parent_handles:
-            # Get or create parent handle.
-            parent_row, _ = get_or_create(
+            # Get or create parent handle. Deriving a child does not derive the parent again,
+            # so a parent that was rolled back stays invalid.
+            parent_row, created = get_or_create(
                 self.session,
                 Handle,
                 {
@@ -2669,8 +2670,9 @@ class RedunBackendDb(RedunBackend):
                     "key": parent_handle.__handle__.key,
                     "value_hash": self.record_value(parent_handle),
                 },
-                {"is_valid": True},
             )
+            if created:
+                parent_row.is_valid = True
             parent_handle.__handle__.is_recorded = True
 
             # Get or create handle edge.
@@ -2693,12 +2695,14 @@ class RedunBackendDb(RedunBackend):
         """
         assert self.session
 
-        # Gather all valid handles of the same name and their children ids
+        # Gather all handles of the same name and their children ids
         # in order or perform the recursive search more efficiently in python.
+        # Handles that are already invalid are followed too: states derived from them
+        # later on can be valid again.
         handles_same_name = (
             self.session.query(Handle.hash, HandleEdge.child_id)
             .join(HandleEdge, HandleEdge.parent_id == Handle.hash)
-            .filter(Handle.fullname == handle.__handle__.fullname, Handle.is_valid.is_(True))
+            .filter(Handle.fullname == handle.__handle__.fullname)
             .all()
         )
 
